@@ -36,6 +36,7 @@ class ParamNoise:
 
 class Failing:
     """Distribution that raises at its k-th invocation (fault kind callable.raise)."""
+    _semsim_volatile = ("calls", "fired")      # its own bookkeeping, not caller data
 
     def __init__(self, k, inner, exc):
         self.k = k
